@@ -39,6 +39,7 @@ ASSUMPTIONS = [
     'the documented domain of event protocols and are not generated',
     'final-time convention: an event starting exactly at the final time is '
     'listed (asserted by the repository\'s own tests)',
+    'the dose-free re-data step uses frames sorted by time (the likelihood documents increasing times)',
 ]
 ANCHORS = [
     'chi._mechanistic_models.PKPDModel.set_administration',
